@@ -70,8 +70,12 @@ theorem planUn_doc (w : World) (hc : HCfg) (n : Nat) {t : Ty} {v : HVal} {view :
     (h : DocUn w hc n t v view) : planUn w hc n t v view = .ident v := by
   induction h with
   | @leafTy t v view ht =>
-    cases t <;> first | (simp [isLeafTy] at ht; done) | simp only [planUn]
+    cases t <;> first | (simp [isLeafTy] at ht; done) | simp only [planUn] | skip
+    rename_i vs
+    have hl : litHasEnum vs = false := by simpa [isLeafTy] using ht
+    simp only [planUn, hl, Bool.false_eq_true, if_false]
   | any h => simp only [planUn]; exact planUnAny_doc h
+  | litEnum hl h => simp only [planUn, hl, if_true]; exact planUnAny_doc h
   | union h => simp only [planUn]; exact planUnAny_doc h
   | @optBase t v view hg hv h =>
     have hv' : v = HVal.leaf Obj.none → False := hv
